@@ -236,7 +236,11 @@ theorem eval_sim (env : Env) (hst : env.Steady) : ∀ f p s t, Sim s t →
       obtain ⟨hs, ho⟩ := hf
       simp only at ho
       subst ho
-      exact cont_sim o1 _ _ (fun r s t h => ih (k r) s t h) hs
+      cases o1 with
+      | ok v => exact ih _ _ _ ⟨hs.map, hs.next, hs.recs⟩
+      | err e => exact cont_sim _ _ _ (fun r s t h => ih (k r) s t h) hs
+      | panicked => exact cont_sim _ _ _ (fun r s t h => ih (k r) s t h) hs
+      | diverged => exact cont_sim _ _ _ (fun r s t h => ih (k r) s t h) hs
     | load key k =>
       simp only [eval]
       have hr := h.record (recordsAsset (env.types key.ty).hot env.hasReloader) (.asset key)
@@ -257,7 +261,7 @@ theorem eval_sim (env : Env) (hst : env.Steady) : ∀ f p s t, Sim s t →
         | ok v =>
           simp only []
           have hi := hs.insertKeepFirst key (newCell env key.ty v s1.next)
-          rw [← hs.next]
+          rw [← hs.next, ← hs.lookup key]
           rw [← hi.2]
           exact ih _ _ _ ⟨hi.1.map, by simp, hi.1.recs⟩
         | err e => exact cont_sim _ _ _ (fun r s t h => ih (k r) s t h) hs
